@@ -794,6 +794,43 @@ func TestVerifC19(t *testing.T) {
 		if !found || out.Summary.RenamedFunctions != 1 || out.Summary.Added != 0 || out.Summary.Removed != 0 {
 			r.Violate("rename/oversized-function", fmt.Sprintf("a function with 2600 if-statements (beyond the block-count guard) whose only change is its name Dispatch -> Route is not reported as one rename: entries %v, summary %+v", seen, out.Summary), nil)
 		}
+		// two UNRELATED functions beyond the size guard (both carry the placeholder fingerprint): one
+		// removed, one added, different signatures and call profiles — not a rename
+		{
+			var so, sn strings.Builder
+			so.WriteString("package p\n\nfunc weigh(k int) int { return k * 3 }\n\nfunc CheckLimits(x int) int {\n\ts := 0\n")
+			sn.WriteString("package p\n\nimport \"strings\"\n\nfunc weigh(k int) int { return k * 3 }\n\nfunc RenderBanner(in string) string {\n\tout := in\n")
+			for k := 0; k < 2600; k++ {
+				fmt.Fprintf(&so, "\tif x > %d {\n\t\ts += weigh(x)\n\t}\n", k)
+				fmt.Fprintf(&sn, "\tif len(out) == %d {\n\t\tout = strings.ToUpper(out) + strings.Repeat(in, 2)\n\t}\n", k)
+			}
+			so.WriteString("\treturn s\n}\n")
+			sn.WriteString("\treturn out\n}\n")
+			ud := filepath.Join(scratch, "oversized-unrelated")
+			os.MkdirAll(filepath.Join(ud, "o"), 0o755)
+			os.MkdirAll(filepath.Join(ud, "n"), 0o755)
+			uo, un := filepath.Join(ud, "o", "f.go"), filepath.Join(ud, "n", "f.go")
+			os.WriteFile(uo, []byte(so.String()), 0o644)
+			os.WriteFile(un, []byte(sn.String()), 0o644)
+			uout, uerr := ComputeDiff(RealFileSystem{}, uo, un)
+			r.Eval()
+			r.Nontrivial("oversized-unrelated")
+			if uerr != nil {
+				r.Fail("ComputeDiff on the unrelated oversized pair: %v", uerr)
+				return
+			}
+			tpo, _ := c05Topologies(uo, so.String())
+			tpn, _ := c05Topologies(un, sn.String())
+			real := -1.0
+			if tpo["CheckLimits"] != nil && tpn["RenderBanner"] != nil {
+				real = topology.TopologySimilarity(tpo["CheckLimits"], tpn["RenderBanner"])
+			}
+			for _, tm := range uout.TopologyMatches {
+				if tm.OldFunction == "CheckLimits" && tm.NewFunction == "RenderBanner" && real >= 0 && real < 0.6 {
+					r.Violate("threshold/oversized-unrelated-pair", fmt.Sprintf("CheckLimits(int) int and RenderBanner(string) string, both beyond the size guard, have structural similarity %v (< 0.6) but the diff pairs them as a rename (reported similarity %v)", real, tm.Similarity), nil)
+				}
+			}
+		}
 		// a renamed function next to an ADDED near copy that differs only in a literal the default
 		// policy abstracts (same fingerprint, same structure) and whose name sorts first
 		for _, lc := range []struct{ id, body, alt string }{
